@@ -1,8 +1,9 @@
 (* Property C18 — output is invariant under meaning-preserving changes of surface syntax.
-   Partial: what is proved here concerns letter case in the matching model; whitespace, comments, blank lines, label
-   placement and several instructions per line are layout only — the whole-program model is a function of the statement
-   list — and are tied to the implementation by the layout ties / relayout oracle (see DESIGN.md C18). *)
-From BA Require Import Base Bits Expr Subst Layout Program Match MatchProofs.
+   Partial: what is proved here concerns letter case in the matching model and the splitting of a source line into
+   statement text and comment (Lines.v: comments, indentation, trailing whitespace, semicolons inside strings); blank
+   lines, label placement and several instructions per line are layout only — the whole-program model is a function of
+   the statement list — and are tied to the implementation by the layout ties / relayout oracle (see DESIGN.md C18). *)
+From BA Require Import Base Bits Expr Subst Layout Program Match MatchProofs Lines LinesProofs.
 
 (* letter case of the mnemonic carries no meaning *)
 Theorem C18_mnemonic_case : forall fuel regs i mn mn' ops,
@@ -20,3 +21,44 @@ Print Assumptions C18_register_accepts_iff.
 Theorem C18_register_case : forall x x' r, map lower x = map lower x' -> str_eqb_ci x r = str_eqb_ci x' r.
 Proof. exact register_case_irrelevant. Qed.
 Print Assumptions C18_register_case.
+
+(* ---------- comments and surrounding whitespace (the line splitter, Lines.v) ---------- *)
+
+(* a statement text in which every quote opens a string closed within the text is read the same whatever comment follows
+   it: the statement part of  text ; comment  is the text, the comment part is the comment *)
+Theorem C18_comment_is_split_off : forall st c,
+  balanced st = true -> split_line (st ++ c_semi :: c) = Some (st, Some c).
+Proof. exact comment_is_split_off. Qed.
+Print Assumptions C18_comment_is_split_off.
+
+Theorem C18_without_comment : forall st, balanced st = true -> split_line st = Some (st, None).
+Proof. exact no_comment. Qed.
+Print Assumptions C18_without_comment.
+
+(* indentation and trailing whitespace of a line carry no meaning *)
+Theorem C18_indentation : forall ws1 raw ws2,
+  forallb is_space ws1 = true -> forallb is_space ws2 = true -> line_parts (ws1 ++ raw ++ ws2) = line_parts raw.
+Proof. exact line_parts_indentation. Qed.
+Print Assumptions C18_indentation.
+
+(* text without quotes, semicolons and vertical tabs is such a statement text; so is a complete quoted string, whatever it
+   contains (a semicolon inside it does not start a comment); and so is any concatenation of such texts *)
+Theorem C18_plain_text_balanced : forall s, forallb plain_char s = true -> balanced s = true.
+Proof. exact plain_balanced. Qed.
+Print Assumptions C18_plain_text_balanced.
+
+Theorem C18_quoted_string_balanced : forall q inner n,
+  is_quote q = true -> close_quote q inner = Some n -> length inner = n -> balanced (q :: inner) = true.
+Proof. exact quoted_text_is_statement_text. Qed.
+Print Assumptions C18_quoted_string_balanced.
+
+Theorem C18_balanced_concat : forall a b, balanced a = true -> balanced b = true -> balanced (a ++ b) = true.
+Proof. exact balanced_app. Qed.
+Print Assumptions C18_balanced_concat.
+
+(* non-vacuity:  .cstr "a;b" ; it's   -- the statement keeps its semicolon, the comment its apostrophe *)
+Example C18_line_example :
+  line_parts [32; 46; 99; 115; 116; 114; 32; 34; 97; 59; 98; 34; 32; 59; 32; 105; 116; 39; 115; 9]
+  = ([46; 99; 115; 116; 114; 32; 34; 97; 59; 98; 34], [105; 116; 39; 115])
+  /\ balanced [46; 99; 115; 116; 114; 32; 34; 97; 59; 98; 34; 32] = true.
+Proof. split; vm_compute; reflexivity. Qed.
